@@ -25,4 +25,18 @@ def holdsSkip (skip : List String) (before after : GlyphSet) : Bool :=
 def holdsOrder (skip : List String) (orderFull orderSkip : List String) : Bool :=
   orderSkip == orderFull.filter (fun n => !skip.contains n)
 
+/-- two renderings of one glyph (contours as canonically sorted point lists) agree up to the rounding of interpolated
+    coordinates (one font unit per coordinate) -/
+def closeDrawing (a b : List (List (Int × Int))) : Bool :=
+  a.length == b.length &&
+  (a.zip b).all (fun (c, d) => c.length == d.length &&
+    (c.zip d).all (fun (p, q) => (p.1 - q.1).natAbs ≤ 1 && (p.2 - q.2).natAbs ≤ 1))
+
+/-- variable font built with a skip list vs without: same glyph order up to the skipped names; at every sampled location
+    every remaining glyph has the same advance and draws the same contours -/
+def vfWrong (skip : List String) (orderFull orderSkip : List String)
+    (samples : List (String × String × Int × Int × List (List (Int × Int)) × List (List (Int × Int)))) : List String :=
+  (if holdsOrder skip orderFull orderSkip then [] else ["<order>"]) ++
+  (samples.filter (fun (_, _, advF, advS, dF, dS) => !(advF == advS && closeDrawing dF dS))).map (fun (loc, n, _) => loc ++ ":" ++ n)
+
 end Ufo2ft.C13
